@@ -7,10 +7,15 @@
    qexpy/data/operations.py: DerivativeEvaluator.__evaluate through Model/Expr.lean).
 
   Generic over `Num`: run with `FB`, proved with `ℝ`.
+  The sign tests, the stored / new uncertainties and the arrays of `_get_error_array_helper` are
+  the terms regenerated from the source on every run (`QExPy/Generated/Uncert.lean`, translator
+  section `uncert`, which also checks the order test-before-assignment of every setter and the
+  branch order of the helper).
 -/
 import QExPy.Num
 import QExPy.Model.Stats
 import QExPy.Model.Expr
+import QExPy.Generated.Uncert
 
 namespace QExPy.Uncert
 open QExPy
@@ -78,27 +83,26 @@ def single (v e : α) : Qty α := ⟨.single, v, e, [], [], .const zero⟩
 
 def neg? (x : α) : Bool := Num.lt x zero
 
+/-- the final sign test of `_get_error_array_helper`, on the array of the branch taken -/
+def errFinish (l : List α) : Option (List α) := if Gen.errArrayBad l then none else some l
+
 /-- `_get_error_array_helper(data, error, rel_error)`; `none` = an exception is raised -/
 def errArray (xs : List α) : ErrSpec α → Option (List α)
-  | .none => some (xs.map fun _ => zero)
-  | .common e => if neg? e then none else some (xs.map fun _ => e)
+  | .none => errFinish (Gen.errNone xs)
+  | .common e => errFinish (Gen.errCommon xs e)
   | .each es =>
     if es.length != xs.length then none
-    else if es.any neg? then none else some es
-  | .rel r =>
-    let l := xs.map fun x => Num.mul r (Num.abs x)
-    if l.any neg? then none else some l
+    else errFinish (Gen.errEach xs es)
+  | .rel r => errFinish (Gen.errRel xs r)
   | .rels rs =>
     if rs.length != xs.length then none
-    else
-      let l := List.zipWith (fun r x => Num.mul r (Num.abs x)) rs xs
-      if l.any neg? then none else some l
+    else errFinish (Gen.errRels xs rs)
 
 /-- `MeasuredValue.__init__`: the uncertainty must not be negative -/
 def mkMeasurement (h : Heap α) (v : α) (e : Option α) : Heap α × Out :=
   match e with
   | none => (h ++ [single v zero], .ok)
-  | some e => if neg? e then (h, .reject) else (h ++ [single v e], .ok)
+  | some e => if Gen.ctorNegBad e then (h, .reject) else (h ++ [single v (Gen.ctorError e)], .ok)
 
 def mkRepeated (h : Heap α) (xs : List α) (spec : ErrSpec α) : Heap α × Out :=
   match spec with
@@ -180,23 +184,22 @@ def setError (h : Heap α) (i : Nat) (e : α) : Heap α × Out :=
   match h[i]? with
   | none => (h, .reject)
   | some q =>
-    if neg? e then (h, .reject)
+    if (match q.kind with | .derived => Gen.dSetErrBad e | _ => Gen.setErrBad e) then (h, .reject)
     else
       match q.kind with
-      | .derived => (h.set i { q with kind := .single, error := e }, .ok)
-      | _ => (h.set i { q with error := e }, .ok)
+      | .derived => (h.set i { q with kind := .single, error := Gen.dSetErrNew q.value e }, .ok)
+      | _ => (h.set i { q with error := Gen.setErrNew q.value e }, .ok)
 
 /-- `x.relative_error = r`: the uncertainty becomes `|value| * r` -/
 def setRelError (h : Heap α) (i : Nat) (r : α) : Heap α × Out :=
   match h[i]? with
   | none => (h, .reject)
   | some q =>
-    if neg? r then (h, .reject)
+    if (match q.kind with | .derived => Gen.dSetRelBad r | _ => Gen.setRelBad r) then (h, .reject)
     else
-      let e := Num.mul (Num.abs q.value) r
       match q.kind with
-      | .derived => (h.set i { q with kind := .single, error := e }, .ok)
-      | _ => (h.set i { q with error := e }, .ok)
+      | .derived => (h.set i { q with kind := .single, error := Gen.dSetRelNew q.value r }, .ok)
+      | _ => (h.set i { q with error := Gen.setRelNew q.value r }, .ok)
 
 /-- `x.value = v`: a repeated measurement or a derived value becomes a single measurement and
     keeps its uncertainty -/
@@ -218,7 +221,8 @@ def sel (h : Heap α) (i : Nat) (s : Stats.Sel) : Heap α × Out :=
 /-- the formula an operand stands for; a `(v, e)` pair becomes a new measurement at `slot` -/
 def operandExpr (h : Heap α) (slot : Nat) : Operand α → Option (Expr α × Heap α)
   | .num c => some (.const c, h)
-  | .pair v e => if neg? e then none else some (.var slot, h ++ [single v e])
+  | .pair v e =>
+    if Gen.ctorNegBad e then none else some (.var slot, h ++ [single v (Gen.ctorError e)])
   | .ref i =>
     match h[i]? with
     | none => none
